@@ -55,6 +55,8 @@ pub struct Ctl {
     pub keep_clauses: bool,
     /// when set, scripted choices beyond the script are drawn from this seeded generator
     pub rand_state: Option<u64>,
+    /// "cadical" or "ext:<program>|opt|opt..." : the real SatSolver type behind the wrapper
+    pub backend: String,
 }
 
 pub type Shared = Rc<RefCell<Ctl>>;
@@ -76,6 +78,7 @@ impl Ctl {
             cut: false,
             keep_clauses: true,
             rand_state: None,
+            backend: "cadical".to_string(),
         }))
     }
 }
@@ -83,24 +86,24 @@ impl Ctl {
 pub struct ObsSat {
     ctl: Shared,
     inst: usize,
-    inner: CadicalSolver,
+    inner: Box<dyn SatSolver>,
     clauses: Vec<Vec<isize>>,
 }
 
 pub fn factory(ctl: &Shared) -> Box<SatSolverFactoryFn> {
     let ctl = Rc::clone(ctl);
     Box::new(move || {
-        let inst = {
+        let (inst, backend) = {
             let mut c = ctl.borrow_mut();
             c.n_inst += 1;
             let i = c.n_inst;
             c.log.push(Ent::New(i));
-            i
+            (i, c.backend.clone())
         };
         Box::new(ObsSat {
             ctl: Rc::clone(&ctl),
             inst,
-            inner: CadicalSolver::default(),
+            inner: crate::sat::mk_backend(&backend),
             clauses: vec![],
         })
     })
